@@ -598,37 +598,44 @@ func (s *Store) gcIndex(ctx context.Context) error {
 		tagged.Add(desc.Digest)
 	}
 
-	// index referrer manifests
-	for ref, desc := range refMap {
-		if ref != desc.Digest.String() || tagged.Contains(desc.Digest) {
-			continue
-		}
-		// check if the referrers manifest can traverse to the existing graph
-		current := desc
-		for {
-			subject, err := manifestutil.Subject(ctx, s.storage, current)
-			if err != nil {
-				if errors.Is(err, errdef.ErrNotFound) {
-					// the chain ends at a manifest that is not in the storage
+	// index referrer manifests; a referrer may become reachable only after
+	// another referrer has been indexed, so repeat until nothing changes
+	kept := set.New[digest.Digest]()
+	for changed := true; changed; {
+		changed = false
+		for ref, desc := range refMap {
+			if ref != desc.Digest.String() || tagged.Contains(desc.Digest) || kept.Contains(desc.Digest) {
+				continue
+			}
+			// check if the referrers manifest can traverse to the existing graph
+			current := desc
+			for {
+				subject, err := manifestutil.Subject(ctx, s.storage, current)
+				if err != nil {
+					if errors.Is(err, errdef.ErrNotFound) {
+						// the chain ends at a manifest that is not in the storage
+						break
+					}
+					return err
+				}
+				if subject == nil {
 					break
 				}
-				return err
-			}
-			if subject == nil {
-				break
-			}
-			if graph.Exists(*subject) {
-				if err := tagResolver.Tag(ctx, deleteAnnotationRefName(desc), desc.Digest.String()); err != nil {
-					return err
+				if graph.Exists(*subject) {
+					if err := tagResolver.Tag(ctx, deleteAnnotationRefName(desc), desc.Digest.String()); err != nil {
+						return err
+					}
+					plain := descriptor.Plain(desc)
+					if err := graph.IndexAll(ctx, s.storage, plain); err != nil {
+						return err
+					}
+					kept.Add(desc.Digest)
+					changed = true
+					break
 				}
-				plain := descriptor.Plain(desc)
-				if err := graph.IndexAll(ctx, s.storage, plain); err != nil {
-					return err
-				}
-				break
+				// continue with the subject of the subject
+				current = *subject
 			}
-			// continue with the subject of the subject
-			current = *subject
 		}
 	}
 	s.tagResolver = tagResolver
